@@ -38,7 +38,8 @@ def hasDropped : List Action → Bool
   | .dropped _ :: _ => true
   | _ :: rest => hasDropped rest
 
-/-- `GET k`, `PING` -/
+/-- `GET k`, `PING`, `SET k v` -/
+def cmdSetKV : Cmd := [[83, 69, 84], [107], [118]]
 def cmdGetK : Cmd := [[71, 69, 84], [107]]
 def cmdPing : Cmd := [[80, 73, 78, 71]]
 
@@ -556,6 +557,42 @@ theorem written_is_prefix (σ : Type) (ex : Exec σ) (s0 : σ) (cfg : Config) (h
   have := runW_prefix cfg ex s0 script segs stopAfter hnc
   rwa [hrun, encActs_execAll] at this
 
+/-- NOTHING IS WITHHELD WHILE THE CLIENT WAITS.  The client has sent ANY PREFIX of a well-formed
+    pipeline (`rest` is what it has not sent yet: the cut may fall at any byte), in any segmentation,
+    and now waits.  Then exactly the commands `done` that are complete in what it sent have been
+    executed, the bytes it has received are exactly the replies to `done` — all of them, none
+    stranded in the write buffer until more input arrives — and what the handler still holds (`pre`)
+    is a proper prefix of the next frame. -/
+theorem nothing_withheld (σ : Type) (ex : Exec σ) (s0 : σ) (cfg : Config) (h14 : cfg.headerLen = 14)
+    (hc : cfg.codec = codec1) (hd : 1 ≤ cfg.env.depth)
+    (cmds : List Cmd) (segs : List Bytes) (rest : Bytes) (script : List WEv) (h : segs.flatten ++ rest = stream cmds)
+    (hs : Small (stream cmds)) (hmax : (stream cmds).length ≤ cfg.maxBuffer) (hok : ∀ c ∈ cmds, CmdOK cfg c)
+    (hnf : NoFail script = true) :
+    ∃ (done left : List Cmd) (pre : Bytes), cmds = done ++ left ∧ segs.flatten = stream done ++ pre ∧
+      (∀ c cs, left = c :: cs → pre.length < (encCmd c).length) ∧
+      run cfg segs = execAll done ∧
+      (runW cfg ex s0 script segs none).out = replyBytes ex s0 (done.map cmdFrame) := by
+  obtain ⟨done, left, pre, tx', e1, e2, e3, e4⟩ :=
+    reads_wf_prefix cfg h14 hc hd (chunksOf cfg segs) cmds [] rest false []
+      (by simp [chunksOf, flatMap_splitReads_flatten, h]) hs hmax hok
+      (by intro c cs _; have := encCmd_len_pos c; simp; omega)
+  have hrun : run cfg segs = execAll done := by
+    have := congrArg Prod.snd e4
+    simpa [run, feedSegs, St.init, chunksOf] using this
+  have hnc : hasCrash (run cfg segs) = false := by
+    rw [hrun, ← anyCrash_eq]; exact anyCrash_execAll done
+  refine ⟨done, left, pre, e1, ?_, e3, hrun, ?_⟩
+  · have : segs.flatten ++ rest = (stream done ++ pre) ++ rest := by
+      rw [h, e1, stream_append, List.append_assoc, e2]
+    exact List.append_cancel_right this
+  · rw [runW_eq cfg ex s0 script segs hnf hnc, hrun, encActs_execAll]
+
+/-- non-vacuity: `SET k v`, `GET k` and 13 of the 14 bytes of a third command have arrived (in two segments, the
+    peer takes 4 bytes at a time): both replies are on the wire -/
+example : (runW cfg14 refExec ExSt.init [.accept 4, .accept 4, .accept 4, .accept 4]
+    [(stream [cmdSetKV, cmdGetK, cmdPing]).take 30, ((stream [cmdSetKV, cmdGetK, cmdPing]).drop 30).take 30] none).out =
+    [43, 79, 75, 13, 10, 36, 49, 13, 10, 118, 13, 10] ∧ (stream [cmdSetKV, cmdGetK]).length = 47 ∧ (stream [cmdSetKV, cmdGetK, cmdPing]).length = 61 := by decide
+
 /-- REFINEMENT for ARBITRARY input bytes (well-formed or not): what the peer receives is (a prefix
     of, and with a peer that never refuses exactly) the encoding of the actions of `Conn.run` —
     every action-level theorem of sections 1–3 is a theorem about the bytes on the wire -/
@@ -591,8 +628,6 @@ theorem client_decodes_one_reply_per_command (σ : Type) (ex : Exec σ) (s0 : σ
 
 /-- non-vacuity: `SET k v`, `GET k`, `PING` cut inside a header; the peer takes 1, 7, 2 bytes, then
     everything; the client gets `+OK\r\n$1\r\nv\r\n+PONG\r\n` and decodes three replies from 3-byte pieces -/
-def cmdSetKV : Cmd := [[83, 69, 84], [107], [118]]
-
 example : NoFail [.accept 1, .accept 7, .accept 2] = true ∧
     (runW cfg14 refExec ExSt.init [.accept 1, .accept 7, .accept 2]
       [(stream [cmdSetKV, cmdGetK, cmdPing]).take 9, (stream [cmdSetKV, cmdGetK, cmdPing]).drop 9] none).out =
